@@ -446,6 +446,6 @@ func checkInst(t *testing.T, c InstCase) (v harness.Verdict) {
 // Inst is the instance half of C15.
 var Inst = harness.Define(harness.Opts{
 	Name:  "instance",
-	Rule:  "one well-formed single-log configuration (regular / mirror / frozen / read-only, prefixes with leading / trailing / doubled slashes incl. the bare / and log/, pool keys, optional public key - matching or not -, with or without a real roots file) set up over the reference backend (0-10 leaves) through ctfex.New; script of 2-9 steps: get-sth, backend grows (published or only staged), GetLatestSignedLogRoot starts failing in one of 7 ways, heals; mirrors get a contract-abiding MirrorSTHStorage stub holding STHs of up to 12 sizes in 0..16 (or none at all). Oracle: set-up fails <=> non-mirror without roots or key mismatch; add-chain/add-pre-chain registered <=> neither mirror nor read-only; frozen log: every get-sth is 200 with exactly the frozen STH; mirror: tree_size served <= published backend size. Every case is non-trivial",
+	Rule:  "one well-formed single-log configuration (regular / mirror / frozen / read-only, prefixes with leading / trailing / doubled slashes incl. the bare / and log/, pool keys, optional public key - matching or not -, with or without a real roots file) set up over the reference backend (0-10 leaves) through ctfex.New; script of 2-9 steps: get-sth, backend grows (published or only staged), backend rewinds (reports a tree 1-12 leaves smaller), GetLatestSignedLogRoot starts failing in one of 7 ways, heals; mirrors get a contract-abiding MirrorSTHStorage stub holding STHs of up to 12 sizes in 0..16 (or none at all). Oracle: set-up fails <=> non-mirror without roots or key mismatch; add-chain/add-pre-chain registered <=> neither mirror nor read-only; frozen log: every get-sth is 200 with exactly the frozen STH; mirror: tree_size served <= published backend size. Every case is non-trivial",
 	Quick: 4000, Thorough: 20000, MaxSample: 2500,
 }, genInst, checkInst)
